@@ -127,9 +127,11 @@ func (_ *SprayAndWait) DispatchingAllowed(_ BundleDescriptor) bool {
 // The bundle's originator will distribute Multiplicity copies amongst its peers
 // Forwarders will only every deliver the bundle to its final destination
 func (sw *SprayAndWait) SenderForBundle(bp BundleDescriptor) (css []cla.ConvergenceSender, del bool) {
-	sw.dataMutex.RLock()
+	// The entry is read, modified and written back; hold the lock for the whole update.
+	sw.dataMutex.Lock()
+	defer sw.dataMutex.Unlock()
+
 	metadata, ok := sw.bundleData[bp.Id]
-	sw.dataMutex.RUnlock()
 	if !ok {
 		log.WithFields(log.Fields{
 			"bundle": bp.ID(),
@@ -165,9 +167,7 @@ func (sw *SprayAndWait) SenderForBundle(bp BundleDescriptor) (css []cla.Converge
 		}
 	}
 
-	sw.dataMutex.Lock()
 	sw.bundleData[bp.Id] = metadata
-	sw.dataMutex.Unlock()
 
 	log.WithFields(log.Fields{
 		"bundle":              bp.ID(),
@@ -186,9 +186,11 @@ func (sw *SprayAndWait) ReportFailure(bp BundleDescriptor, sender cla.Convergenc
 		"bad_cla": sender,
 	}).Debug("Transmission failure")
 
-	sw.dataMutex.RLock()
+	// The entry is read, modified and written back; hold the lock for the whole update.
+	sw.dataMutex.Lock()
+	defer sw.dataMutex.Unlock()
+
 	metadata, ok := sw.bundleData[bp.Id]
-	sw.dataMutex.RUnlock()
 	if !ok {
 		log.WithFields(log.Fields{
 			"bundle": bp.ID(),
@@ -205,9 +207,7 @@ func (sw *SprayAndWait) ReportFailure(bp BundleDescriptor, sender cla.Convergenc
 		}
 	}
 
-	sw.dataMutex.Lock()
 	sw.bundleData[bp.Id] = metadata
-	sw.dataMutex.Unlock()
 }
 
 func (_ *SprayAndWait) ReportPeerAppeared(_ cla.Convergence) {}
@@ -313,9 +313,11 @@ func (_ *BinarySpray) DispatchingAllowed(_ BundleDescriptor) bool {
 // If a node has more than 1 copy left it will send floor(copies/2) to the peer
 // and keep roof(copies/2) for itself
 func (bs *BinarySpray) SenderForBundle(bp BundleDescriptor) (css []cla.ConvergenceSender, del bool) {
-	bs.dataMutex.RLock()
+	// The entry is read, modified and written back; hold the lock for the whole update.
+	bs.dataMutex.Lock()
+	defer bs.dataMutex.Unlock()
+
 	metadata, ok := bs.bundleData[bp.Id]
-	bs.dataMutex.RUnlock()
 	if !ok {
 		log.WithFields(log.Fields{
 			"bundle": bp.ID(),
@@ -363,9 +365,7 @@ func (bs *BinarySpray) SenderForBundle(bp BundleDescriptor) (css []cla.Convergen
 		}
 	}
 
-	bs.dataMutex.Lock()
 	bs.bundleData[bp.Id] = metadata
-	bs.dataMutex.Unlock()
 
 	log.WithFields(log.Fields{
 		"bundle":              bp.ID(),
@@ -394,9 +394,11 @@ func (bs *BinarySpray) ReportFailure(bp BundleDescriptor, sender cla.Convergence
 
 	binarySprayBlock := metadataBlock.Value.(*bpv7.BinarySprayBlock)
 
-	bs.dataMutex.RLock()
+	// The entry is read, modified and written back; hold the lock for the whole update.
+	bs.dataMutex.Lock()
+	defer bs.dataMutex.Unlock()
+
 	metadata, ok := bs.bundleData[bp.Id]
-	bs.dataMutex.RUnlock()
 	if !ok {
 		log.WithFields(log.Fields{
 			"bundle":  bp.ID(),
@@ -413,9 +415,7 @@ func (bs *BinarySpray) ReportFailure(bp BundleDescriptor, sender cla.Convergence
 		}
 	}
 
-	bs.dataMutex.Lock()
 	bs.bundleData[bp.Id] = metadata
-	bs.dataMutex.Unlock()
 }
 
 func (_ *BinarySpray) ReportPeerAppeared(_ cla.Convergence) {}
